@@ -110,6 +110,7 @@ type BlockRecord struct {
 type World struct {
 	App      *elysapp.ElysApp
 	DB       dbm.DB
+	diskDir  string // non-empty: DB is a goleveldb directory
 	Scenario Scenario
 	Genesis  []byte
 	Accounts []*Account // users
@@ -156,10 +157,22 @@ func workDir() string {
 
 // NewWorld builds genesis deterministically from the scenario and runs InitChain
 // plus the first (empty) block.
-func NewWorld(sc Scenario) *World {
+func NewWorld(sc Scenario) *World { return NewWorldOn(sc, "") }
+
+// NewWorldOn: diskDir == "" keeps the state in an in-memory database; otherwise the application
+// database is a goleveldb directory under diskDir (closed and re-opened by Restart, like a real node).
+func NewWorldOn(sc Scenario, diskDir string) *World {
 	w := &World{Scenario: sc, ByAddr: map[string]*Account{}}
 	w.homeDir = workDir()
-	w.DB = dbm.NewMemDB()
+	if diskDir == "" {
+		w.DB = dbm.NewMemDB()
+	} else {
+		db, err := dbm.NewGoLevelDB("application", diskDir, nil)
+		if err != nil {
+			panic(fmt.Errorf("harness: open goleveldb in %s: %w", diskDir, err))
+		}
+		w.DB, w.diskDir = db, diskDir
+	}
 	w.App = newApp(w.DB, w.homeDir)
 	for i := 0; i < sc.NumUsers; i++ {
 		w.Accounts = append(w.Accounts, mkAccount(fmt.Sprintf("user%d", i)))
@@ -521,6 +534,17 @@ func sortedKeys[V any](m map[string]V) []string {
 // Restart discards the application object and rebuilds it from the same database,
 // as a node that was stopped after the last commit and started again.
 func (w *World) Restart() error {
+	if w.diskDir != "" {
+		// a stopped node: the process' handle on the database is gone, everything comes back from the files
+		if err := w.DB.Close(); err != nil {
+			return fmt.Errorf("restart: close db: %w", err)
+		}
+		db, err := dbm.NewGoLevelDB("application", w.diskDir, nil)
+		if err != nil {
+			return fmt.Errorf("restart: reopen db: %w", err)
+		}
+		w.DB = db
+	}
 	w.App = newApp(w.DB, w.homeDir)
 	if got := w.App.LastBlockHeight(); got != w.Height {
 		return fmt.Errorf("restart: app loaded height %d, expected %d", got, w.Height)
